@@ -207,7 +207,8 @@ FLOWS = [
     # ---- request framing (C13)
     Flow("k_flow_create_pdu_header", F, "RpcClient._create_pdu_header", props=("C13",)),
     Flow("k_flow_create_request", F, "RpcClient._create_request", props=("C13",)),
-    Flow("k_flow_prepare_pdu", F, "RpcClient._prepare_pdu", props=("C13",)),      # translated, NOT tied: store through a memoryview alias
+    # RpcClient._prepare_pdu: refused by vlib/flow.py (frag_len / auth_len are patched through a memoryview alias): no flow; kernels
+    # k_fraglen_patch / k_wrap_trailer_len + correspondence framing.request
     Flow("k_flow_auth_wrap", A, "AuthenticationProvider.wrap", props=("C13",)),
     Flow("k_flow_strip_get_key_result", "_client.py", "_process_get_key_result", props=("C13",)),
     # ---- sealed replies (C16)
